@@ -5,7 +5,7 @@ Line protocol of property C09 — the acceptor `Model.Durable.step` behind one o
 prediction for a crash image pair.
 
   reset
-  put r h | bbegin lo hi | bmid r | bend ok|err | notify c | fend e | conf r
+  put r h | bbegin lo hi | bmid r | bend ok|err | notify c | fend e | conf r | ack r | lcack r
   tbegin a | tround n | aux | tend ok|err | tdone d | reload d lc ok
   bimg id | timg id                      an image of the block / tracker store is taken now
   open b=<img> t=<img>                   → `B=<B> T=<T> kind=rt|lag|ahead conf=<max round confirmed by the crash instant> state=<n>`
@@ -17,7 +17,8 @@ enqueued something is not observable at that moment); `tround n` → notifyCommi
 at the latest possible instant; lastCommitted is monotone, so a target accepted here was ≤ lastCommitted… only from here on:
 see claims note); `tend ok|err` → commitTxn | commitAbort (a transaction without `tround` is auxiliary: no step);
 `tdone d` → commitPost (d must be the model's dbRound; the harness logs it only at its own stops, so an observed in-memory
-dbRound — `tbegin a`, `reload d` — equal to the round of a committed-but-unposted transaction also counts as postCommit); `conf r` → waitCommit r; `reload` → crash (only when nothing is in flight).
+dbRound — `tbegin a`, `reload d` — equal to the round of a committed-but-unposted transaction also counts as postCommit); `conf r` / `ack r` (Ledger.Wait(r) closed) / `lcack r` (LatestCommitted = (r, _)) → waitCommit r (the model's one
+durability acknowledgement); `reload` → crash (only when nothing is in flight).
 -/
 namespace AlgoVerif.Driver.C09
 open AlgoVerif.Drv AlgoVerif.Model.Durable
@@ -100,6 +101,20 @@ def handleEv (d : DSt) : List String → DSt × String
     match r.toNat? with
     | some r =>
       match stepEv d (.waitCommit r) "confirmed-beyond-lastCommitted" with
+      | (d', "ok") => ({ d' with confs := (r, d.n) :: d.confs }, "ok")
+      | x => x
+    | none => rej d "parse"
+  | ["ack", r] =>        -- the channel of Ledger.Wait(r) is closed: the same acknowledgement as waitCommit
+    match r.toNat? with
+    | some r =>
+      match stepEv d (.waitCommit r) "acknowledged-beyond-lastCommitted" with
+      | (d', "ok") => ({ d' with confs := (r, d.n) :: d.confs }, "ok")
+      | x => x
+    | none => rej d "parse"
+  | ["lcack", r] =>      -- LatestCommitted() = (r, _)
+    match r.toNat? with
+    | some r =>
+      match stepEv d (.waitCommit r) "acknowledged-beyond-lastCommitted" with
       | (d', "ok") => ({ d' with confs := (r, d.n) :: d.confs }, "ok")
       | x => x
     | none => rej d "parse"
